@@ -472,4 +472,21 @@ theorem breakSeparator_simple (d : Char) (f : Frag) (hf : Frag.Simple f) (hne : 
   · rw [breakSeparator_fused, hfs]
     simp [hne, headMap_nil]
 
+/-- `DecoratorHelper._parse` on `path(args)` when the strings of `args` are arbitrary simple strings: the argument pieces are
+    still the texts of top-level comma-separated fragments of `args` (possibly fewer than there are commas). -/
+theorem decoParse_simple (path : Str) (args : Frag) (hp : ∀ x ∈ path, x ≠ '(') (ha : Frag.Simple args) (hne : args ≠ .nil) :
+    ∃ fs : List Frag, Frag.join ',' fs = args ∧ (∀ p ∈ fs, Frag.Simple p) ∧
+      decoParse (path ++ '(' :: (args.render ++ [')']))
+        = .ok (path, decoArgs (fs.map fun p => strip p.render), args.render) := by
+  obtain ⟨fs, hj, hs, hb⟩ := breakSeparator_simple ',' args ha hne
+  refine ⟨fs, hj, hs, ?_⟩
+  have h1 : slice (path ++ '(' :: (args.render ++ [')'])) 0 path.length = path := slice_front _ _
+  have h2 : slice (path ++ '(' :: (args.render ++ [')'])) (path.length + 1) ((path ++ '(' :: (args.render ++ [')'])).length - 1)
+      = args.render := by
+    have : (path ++ '(' :: (args.render ++ [')'])).length - 1 = path.length + 1 + args.render.length := by
+      simp; omega
+    rw [this]; exact slice_middle _ _ _ _
+  simp only [decoParse, find_char '(' path _ hp, h1, h2, hb]
+  rfl
+
 end Tranp.Block
